@@ -229,8 +229,11 @@ def learned_names(repo: Repo, run: Run) -> None:
     sequence": a name record files its text under the pid of the thread's OWN pending data record (the slot keyed by the
     emitting thread), not under whatever a table that other threads write holds at that moment - that is C14/R4, a necessary
     condition here."""
+    if getattr(run, "is_probe", False):
+        return          # (a check run for its own obligations does not take over in turn)
     from . import c14
     probe = Run("C14", run.tier, run.repo_root)
+    probe.is_probe = True
     try:
         c14.check(repo, probe)
     except AnalysisError:
@@ -366,6 +369,16 @@ def check(repo: Repo, run: Run) -> None:
     run.floor("R1", "decoders analysed", n_dec, 440)
     run.floor("R1", "state writes/reads classified", total, 10)
     check_class_level_containers(repo, run)
+    from .. import shared
+    found, n_m = shared.kept_mutable_defaults(repo)
+    mine = [f for f in found if f.cls != "PyKdebugParser"]
+    run.ob("R6", mine[0].module if mine else "pykdebugparser", mine[0].cls if mine else "all classes",
+           "no constructor keeps a mutable default argument", not mine,
+           "" if not mine else
+           f"{mine[0].cls}.{mine[0].method} keeps the default object of its parameter `{mine[0].param}` (created once) as "
+           f"self.{mine[0].attr}: every {mine[0].cls} built without that argument shares it, so what one decode leaves behind is "
+           f"picked up by the next one, whichever thread or parser it belongs to", line=mine[0].lineno if mine else None,
+           nontrivial=bool(mine))
     _canary(run, interp)
 
 
